@@ -29,4 +29,6 @@ LiveUp(n)   == flips > 0 /\ (now % Period # 0) /\ WdUp(n) /\ flips' = flips - 1
 LiveNext == (LiveTick \/ (\E nd \in Nodes : LiveCheck(nd)) \/ (\E n \in Nodes : LiveDown(n) \/ LiveUp(n)))
             /\ UNCHANGED <<svars, wvars, pvars>>
 LiveSpec == Init /\ flips = 2 /\ [][LiveNext]_lvars
+\* the unrestricted watchdog model (any refresh pattern)
+WdOnlySpec == Init /\ flips = 0 /\ [][WdNext /\ UNCHANGED <<svars, wvars, pvars, flips>>]_lvars
 ====
